@@ -571,6 +571,8 @@ class BuiltinMixin(object):
         for st1, (a,) in self._args1(e, st):
             if a.ty is STR:
                 res.append((st1, a))
+            elif isinstance(a.ty, Opt) and a.ty.elem is STR:
+                res.append((st1, V(STR, z3.If(core.ois_none(a), CTX.strlit("None"), core.oval(a).t))))
             elif a.ty is MODULE:
                 res.append((st1, fresh(STR, "str")))
             else:
